@@ -173,6 +173,69 @@ func c03Unit(name string, lvl int) core.Unit {
 					}
 				}
 			}
+			// dense block: one slot runs through 0..300 (thorough 0..1100 and 2^n-1, 2^n, 2^n+1 up to
+			// 2^31) while the others stay at 7 - the deterministic stand-in for "random values"
+			// (byte-wise keys, varints, digit-count shortcuts break between the boundary values)
+			{
+				hi := 300
+				if lvl > 0 {
+					hi = 1100
+				}
+				var vals []string
+				for x := 0; x <= hi; x++ {
+					vals = append(vals, fmt.Sprint(x))
+				}
+				if lvl > 0 {
+					for n := 11; n <= 31; n++ {
+						p := int64(1) << uint(n)
+						for _, d := range []int64{-1, 0, 1} {
+							if p+d <= 2147483647 {
+								vals = append(vals, fmt.Sprint(p+d))
+							}
+						}
+					}
+				}
+				for slot := 0; slot < k; slot++ {
+					if k >= 4 && slot != 0 && slot != k-1 {
+						continue
+					}
+					dt := make([][]string, 0, len(vals))
+					dv := make([]eco.Ver, 0, len(vals))
+					for _, x := range vals {
+						t := make([]string, k)
+						for i := range t {
+							t[i] = "7"
+						}
+						t[slot] = x
+						v, err := eco.SafeParse(e, prefix+tupleStr(t))
+						r.Add("parses", 1)
+						if err != nil {
+							r.Violate(core.Violation{Property: "C03", Scope: name, Kind: "tuple-rejected", Inputs: []string{prefix + tupleStr(t)},
+								Expected: fmt.Sprintf("plain %d-component version accepted", k), Got: "error: " + err.Error()})
+							continue
+						}
+						dt, dv = append(dt, t), append(dv, v)
+					}
+					r.Add("states", int64(len(dt)))
+					for i := range dt {
+						for j := range dt {
+							if name == "github" && githubDateShaped(dt[i]) != githubDateShaped(dt[j]) {
+								continue
+							}
+							want := lexCmp(dt[i], dt[j])
+							got, p := eco.SafeCompare(dv[i], dv[j])
+							r.Add("evaluations", 1)
+							if want != 0 {
+								r.Add("nontrivial", 1)
+							}
+							if p != nil || got != want {
+								r.Violate(core.Violation{Property: "C03", Scope: name, Kind: "tuple-order",
+									Inputs: []string{prefix + tupleStr(dt[i]), prefix + tupleStr(dt[j])}, Expected: fmt.Sprintf("Compare=%d (integer tuples)", want), Got: fmt.Sprintf("Compare=%d panic=%v", got, p != nil)})
+							}
+						}
+					}
+				}
+			}
 			// github: calendar-shaped tuples incl. day numbers that do not exist in the month
 			// (31 February): still plain integer tuples, compared among themselves
 			if name == "github" && k == 3 {
@@ -304,7 +367,7 @@ func init() {
 				"distinct_nontrivial":           r.Counters["nontrivial"],
 			}
 		},
-		Rule:        "per ecosystem and documented arity k: every k-tuple over the boundary set (full set for small k, a stated subset for larger k) must parse, and every ordered pair of tuples of the same arity must compare as the integer tuples; every (tuple over {0,1,9,10}, marker spelling) the parser accepts must compare below (pre) / above (post) its unmarked tuple, in both argument orders. distinct_nontrivial = pairs of different tuples + all marker comparisons.",
-		Assumptions: []string{"'plus random values' of the quantifier is replaced by the deterministic boundary set", "marker direction tables are written from each ecosystem's documentation; spellings the parser rejects are skipped (counted in per_scope)", "github date-shaped tuples (4-digit first component) are compared only among themselves; a calendar block (4 years x 7 months x days 1,2,27-31, incl. days the month does not have) is added for them"},
+		Rule:        "per ecosystem and documented arity k: every k-tuple over the boundary set (full set for small k, a stated subset for larger k) and every tuple of the dense block (one slot running through 0..300 / 0..1100 + powers of two, others fixed at 7) must parse, and every ordered pair of tuples of the same arity must compare as the integer tuples; every (tuple over {0,1,9,10}, marker spelling) the parser accepts must compare below (pre) / above (post) its unmarked tuple, in both argument orders. distinct_nontrivial = pairs of different tuples + all marker comparisons.",
+		Assumptions: []string{"'plus random values' of the quantifier is replaced by the deterministic boundary set and by a dense block: each slot in turn runs through 0..300 (thorough 0..1100 and every 2^n-1, 2^n, 2^n+1 for n = 11..31) with the other slots fixed", "marker direction tables are written from each ecosystem's documentation; spellings the parser rejects are skipped (counted in per_scope)", "github date-shaped tuples (4-digit first component) are compared only among themselves; a calendar block (4 years x 7 months x days 1,2,27-31, incl. days the month does not have) is added for them"},
 	})
 }
